@@ -645,6 +645,8 @@ class MethTr:
             return f"(PyObj.eff2 PyObj.meth_write {recv} {self.E(A[0])})"
         if m in ('readline', 'close', 'reset_input_buffer') and n == 0:
             return f"(PyObj.eff1 PyObj.meth_{m} {recv})"
+        if m == 'flushInput' and n == 0:        # pyserial's deprecated name of reset_input_buffer
+            return f"(PyObj.eff1 PyObj.meth_reset_input_buffer {recv})"
         if m in ('encode', 'decode') and n == 1:
             if not (isinstance(A[0], ast.Constant) and isinstance(A[0].value, str)
                     and A[0].value.lower().replace('-', '_') in ('ascii', 'us_ascii')):
@@ -1008,6 +1010,8 @@ FUNCS = [
     ('ebb_serial.py', 'findPort'), ('ebb_serial.py', 'find_named_ebb'), ('ebb_serial.py', 'list_port_info'),
     ('ebb_serial.py', 'listEBBports'), ('ebb_serial.py', 'list_named_ebbs'),
     ('ebb3_serial.py', 'list_ebb_ports'), ('ebb3_serial.py', 'list_named_ebbs'), ('ebb3_serial.py', 'find_named'),
+    # supplementary (X02): opening a port in the legacy layer
+    ('ebb_serial.py', 'testPort'), ('ebb_serial.py', 'openPort'), ('ebb_serial.py', 'open_named_port'),
 ]
 NOOBJ = 'PyObj.NoObj'
 IO_FUNCS = {('ebb_serial', 'command'): 'ebb_serial_command', ('ebb_serial', 'query'): 'ebb_serial_query'}
